@@ -154,6 +154,9 @@ theorem C10_enc_prefix_pass (P : Prims) (pw salt : Bytes) (src : Src) (k : Snk) 
   rw [passEncryptIO_eq, passEncrypt_eq]
   exact htc_prefix _ _ _ _ _ _ src k
 
+example : (passEncryptIO toyPrims [112, 119] (zeros 32) exSrc { ws := [.accept 2, .errOther] }).1 = .ioWrite ∧
+    (passEncryptIO toyPrims [112, 119] (zeros 32) exSrc { ws := [.accept 2, .errOther] }).2.2.out.length = 2 := by decide
+
 /-- The schedule is literally "the same source with its error events deleted": deleting them does not change it,
     and on the stream level the prefix statement compares two I/O runs (`encryptChunksIO_prefix_clean`). -/
 theorem C10_enc_prefix_clean (A : Aead) (key aad : Bytes) (cs : Nat) (hcs : 0 < cs) (s : Src) (k k0 : Snk)
